@@ -37,7 +37,11 @@ def gen_step(rng, kind, name, mc_step):
     if kind == "aggregation":
         return {"aggregation_method": "cbca"}, {"name": name, "method": "cbca"}
     if kind == "optimization":
-        return {"optimization_method": ms.STUB, "tag": name}, {"name": name, "method": ms.STUB}
+        cfg = {"optimization_method": ms.STUB, "tag": name}
+        # the default prior written out: same step, same margins (the callback has a branch on this key)
+        if rng.random() < 0.5:
+            cfg["geometric_prior"] = {"source": "internal"}
+        return cfg, {"name": name, "method": ms.STUB}
     if kind == "semantic_segmentation":
         return {"segmentation_method": ms.STUB, "tag": name, "RGB_bands": None}, {"name": name, "method": ms.STUB}
     if kind == "cost_volume_confidence":
